@@ -367,3 +367,125 @@ def step_strategy(with_insert: bool, max_sub: int = 8):
 
 def history_strategy(max_steps: int, with_insert: bool = True):
     return st.fixed_dictionaries({"root": st.sampled_from(["module", "dfg", "custom"]), "steps": st.lists(step_strategy(with_insert), min_size=1, max_size=max_steps)})
+
+
+# ------------------------------------------------------------------ observation for round trips (C02 / C03)
+
+
+def enc_op_of(h, n):
+    """Encoded op of node n with the parent field blanked."""
+    from hugr.hugr.node_port import Node
+
+    d = json.loads(h[n].op._to_serial(Node(0)).model_dump_json())
+    d["parent"] = 0
+    return d
+
+
+def obs(h):
+    """Observable structure: {idx: (op, parent, children, metadata)}, link multiset
+    (order links at offset -1), root index."""
+    nodes = {}
+    for n in h:
+        d = h[n]
+        nodes[n.idx] = (json.dumps(enc_op_of(h, n), sort_keys=True), d.parent.idx if d.parent else None, [c.idx for c in h.children(n)], json.dumps(d.metadata, sort_keys=True, default=repr))
+    links = Counter((s.node.idx, s.offset, d.node.idx, d.offset) for s, d in h.links())
+    return nodes, links, h.root.idx
+
+
+def rename_obs(o):
+    """Order-preserving compaction of live indices (the only licence of C02)."""
+    nodes, links, root = o
+    mp = {old: new for new, old in enumerate(sorted(nodes))}
+    n2 = {mp[i]: (op, None if p is None else mp[p], [mp[c] for c in ch], meta) for i, (op, p, ch, meta) in nodes.items()}
+    l2 = Counter()
+    for (s, so, d, do), c in links.items():
+        l2[(mp[s], so, mp[d], do)] += c
+    return n2, l2, mp[root]
+
+
+def value_ports(h, n):
+    """(#in, #out) ports that the operation of node n has, excluding order ports
+    (value + static), computed from the encoded op by the reference signature."""
+    from vlib import refval
+
+    s = refval.jsig(enc_op_of(h, n))
+    if s["other_out"] == "cf":
+        return 1, s["n_cf_out"]
+    nin = len(s["ins"]) + (1 if s["static_in"] else 0) + (1 if s["other_in"] == "cf" else 0)
+    nout = len(s["outs"]) + (1 if s["static_out"] else 0)
+    return nin, nout
+
+
+def has_order_port(h, n, direction):
+    from vlib import refval
+
+    s = refval.jsig(enc_op_of(h, n))
+    return s["other_in" if direction == "in" else "other_out"] == "order"
+
+
+def apply_valid_mutation(h, step, flags: set):
+    """Raw-API mutation on an arbitrary HUGR whose links stay on ports the ops have."""
+    from hugr.hugr.node_port import InPort, OutPort
+
+    live = [n for n in h]
+    kind = step[0]
+
+    def pick(sel):
+        return live[sel % len(live)]
+
+    if kind == "add_node":
+        _, opn, psel, req, meta = step
+        h.add_node(mk_pool_op(opn), pick(psel), num_outs=req, metadata=meta)
+        flags.add("add-node")
+    elif kind == "add_const":
+        import hugr.val as val
+
+        h.add_const(val.TRUE, pick(step[1]), metadata=step[2])
+    elif kind == "add_link":
+        _, ssel, so, dsel, do = step
+        srcs = [n for n in live if value_ports(h, n)[1] > 0]
+        dsts = [n for n in live if value_ports(h, n)[0] > 0]
+        if not srcs or not dsts:
+            return
+        s, d = srcs[ssel % len(srcs)], dsts[dsel % len(dsts)]
+        so, do = so % value_ports(h, s)[1], do % value_ports(h, d)[0]
+        multi = any(True for _ in h.linked_ports(OutPort(s, so))) or any(True for _ in h.linked_ports(InPort(d, do)))
+        h.add_link(OutPort(s, so), InPort(d, do))
+        if multi:
+            flags.add("multi-link")
+    elif kind == "add_order_link":
+        _, ssel, dsel = step
+        srcs = [n for n in live if has_order_port(h, n, "out")]
+        dsts = [n for n in live if has_order_port(h, n, "in")]
+        if not srcs or not dsts:
+            return
+        h.add_order_link(srcs[ssel % len(srcs)], dsts[dsel % len(dsts)])
+        flags.add("order-link")
+    elif kind in ("delete_existing_link", "delete_link"):
+        ls = list(h.links())
+        if ls:
+            s, d = ls[step[1] % len(ls)]
+            h.delete_link(s, d)
+            flags.add("delete-link")
+    elif kind == "delete_node":
+        cands = [n for n in live if n.idx != h.root.idx and not h.children(n)]
+        if cands:
+            n = cands[step[1] % len(cands)]
+            h.delete_node(n)
+            flags.add("delete-node")
+    else:
+        raise InvalidCase(kind)
+
+
+def valid_mutations(max_steps=8):
+    from vlib.asts import weighted
+
+    alts = [
+        (3, st.tuples(st.just("add_node"), st.sampled_from(OP_POOL), SEL, st.one_of(st.none(), st.integers(0, 3)), META).map(list)),
+        (1, st.tuples(st.just("add_const"), SEL, META).map(list)),
+        (4, st.tuples(st.just("add_link"), SEL, OFF, SEL, OFF).map(list)),
+        (2, st.tuples(st.just("add_order_link"), SEL, SEL).map(list)),
+        (2, st.tuples(st.just("delete_existing_link"), SEL).map(list)),
+        (3, st.tuples(st.just("delete_node"), SEL).map(list)),
+    ]
+    return st.lists(weighted(*alts), max_size=max_steps)
